@@ -71,6 +71,8 @@ type ufsDataMsg struct {
 	HashType   uint64
 	Fanout     uint64
 	HasHamt    bool
+	Mtime      int64 // UnixFS 1.5 optional metadata: seconds since the epoch (field 8), with a mode (field 7)
+	HasMtime   bool
 }
 
 func (m ufsDataMsg) encode() []byte {
@@ -87,6 +89,10 @@ func (m ufsDataMsg) encode() []byte {
 	if m.HasHamt {
 		out = pbVarintField(out, 5, m.HashType)
 		out = pbVarintField(out, 6, m.Fanout)
+	}
+	if m.HasMtime {
+		out = pbVarintField(out, 7, 0o644)
+		out = pbBytesField(out, 8, pbVarintField(nil, 1, uint64(m.Mtime)))
 	}
 	return out
 }
@@ -225,10 +231,18 @@ func runCar(dir string, stdin []byte, timeout time.Duration, args ...string) car
 // runCarIO is runCar with an arbitrary stdin: an *os.File is handed to the child
 // as is (shell redirection `< file`), any other reader is fed through a pipe.
 func runCarIO(dir string, stdin io.Reader, timeout time.Duration, args ...string) carRun {
+	return runCarEnv(dir, nil, stdin, timeout, args...)
+}
+
+// runCarEnv is runCarIO with extra environment variables (TMPDIR inside a sandbox, say).
+func runCarEnv(dir string, env []string, stdin io.Reader, timeout time.Duration, args ...string) carRun {
 	ctx, cancel := context.WithTimeout(context.Background(), timeout)
 	defer cancel()
 	cmd := exec.CommandContext(ctx, carBinary(), args...)
 	cmd.Dir = dir
+	if env != nil {
+		cmd.Env = append(os.Environ(), env...)
+	}
 	if stdin != nil {
 		cmd.Stdin = stdin
 	}
@@ -264,6 +278,7 @@ type snapEnt struct {
 	Sha    string `json:"sha256,omitempty"`
 	Target string `json:"target,omitempty"`
 	Mode   uint32 `json:"mode"`
+	Mtime  int64  `json:"mtime,omitempty"` // files and symlinks only (a directory's changes with its entries)
 }
 
 // snapshotTree records every entry below root (root itself as "."), never
@@ -291,6 +306,9 @@ func snapshotTree(root string, exclude ...string) (map[string]snapEnt, error) {
 			return err
 		}
 		e := snapEnt{Mode: uint32(info.Mode().Perm())}
+		if !info.IsDir() {
+			e.Mtime = info.ModTime().UnixNano()
+		}
 		switch {
 		case info.Mode()&os.ModeSymlink != 0:
 			e.Type = "symlink"
@@ -350,6 +368,8 @@ func diffSnapshots(before, after map[string]snapEnt, withModes bool) []snapDiff 
 			ch = "target-changed"
 		case withModes && a.Mode != b.Mode:
 			ch = "mode-changed"
+		case withModes && a.Mtime != b.Mtime:
+			ch = "mtime-changed"
 		}
 		if ch != "" {
 			out = append(out, snapDiff{Path: p, Change: ch, Before: &b, After: &a})
